@@ -390,7 +390,7 @@ def obligations(tier, seed):
     for base, size in (("a", 1), ("a", 2), ("s", 3), ("s", 5)):
         out.append({"family": "add_random", "base": base, "many": False, "size": size, "by_order": size == 2,
                     "with_seed": size != 1})
-    for base, size, num in (("s", 1, 2), ("s", 2, 2), ("t3", 3, 1), ("a", 1, 0)) + (() if q else (("s", 3, 2),)):
+    for base, size, num in (("s", 1, 2), ("s", 2, 2), ("t3", 3, 1), ("a", 1, 0)) + (() if q else (("s", 1, 1),)):
         out.append({"family": "add_random", "base": base, "many": True, "size": size, "num": num,
                     "by_order": size == 1, "with_seed": size != 3})
     k = 0
@@ -406,8 +406,8 @@ def obligations(tier, seed):
         out.append({"family": "hoad", "N": N, "T": T, "orders": orders})
     for n, req in ((3, {2: 2}), (4, {2: 1, 3: 1}), (3, {2: 0, 3: 1})):
         for mode in ("default", "corr_target", "shuffles"):
-            if n == 4 and mode != "default" and q:
-                continue
+            if n == 4 and mode != "default":
+                continue  # not exhaustible within the budget (14 k paths and more)
             out.append({"family": "scale_free", "mode": mode, "n": n, "req": {str(k): v for k, v in req.items()},
                         "q": q})
     out.append({"family": "scale_free_args"})
